@@ -27,6 +27,8 @@ class SeedFlow:
         self.fname = "%s:%s" % (mod.relpath, qualname)
         self.sites = []
         self.seed_params = seed_params
+        self.requires = set()      # "PARAM:x" (x must be a seeded generator at every call site) / "PARAM_R:x" (x must be an instance whose _R is seeded)
+        self.edges = []            # calls of repository functions of the same module: (callee qualname, [abstract values], {kw: abstract values}, lineno)
 
     def run(self):
         env = {}
@@ -36,7 +38,7 @@ class SeedFlow:
             elif a.arg == "self":
                 env[a.arg] = {"SELF"}
             else:
-                env[a.arg] = {"OTHER"}
+                env[a.arg] = {"PARAM:" + a.arg}      # a helper may be handed the generator (or the screen object) by its caller
         self.block(self.fn.body, env)
         return self.sites
 
@@ -124,7 +126,9 @@ class SeedFlow:
                 if e.attr == "random_seed":
                     return {"SEED"}
                 return set(env.get("self." + e.attr, {"OTHER"}))
-            self.expr(e.value, env)
+            base = self.expr(e.value, env)
+            if e.attr == "_R" and base and all(b == "SELF" or b.startswith("PARAM:") for b in base):
+                return {"GEN" if b == "SELF" else "PARAM_R:" + b[6:] for b in base}
             return {"OTHER"}
         if isinstance(e, ast.IfExp):
             self.expr(e.test, env)
@@ -159,9 +163,23 @@ class SeedFlow:
                 if base.startswith("numpy.random") or base in ("random", "np.random"):
                     self.sites.append(SeedSite(self.fname, e.lineno, "draw %s.%s uses a global generator" % (base, e.func.attr), False))
                     return {"OTHER"}
-                ok = recv <= {"GEN"}
-                self.sites.append(SeedSite(self.fname, e.lineno, "draw .%s() comes from the seeded generator [receiver %s : %s]" % (e.func.attr, base, sorted(recv)), ok))
+                handed = {r for r in recv if r.startswith("PARAM:") or r.startswith("PARAM_R:")}
+                ok = bool(recv) and (recv - handed) <= {"GEN"}
+                self.requires |= handed          # discharged at the call sites (seedflow.call_site_obligations)
+                self.sites.append(SeedSite(self.fname, e.lineno, "draw .%s() comes from the seeded generator%s [receiver %s : %s]" % (
+                    e.func.attr, " (handed in by the caller: checked at the call sites)" if handed else "", base, sorted(recv)), ok))
                 return {"DERIVED"}
+        callee = None
+        if isinstance(e.func, ast.Name) and e.func.id in self.mod.funcs:
+            callee = e.func.id
+        elif isinstance(e.func, ast.Attribute) and isinstance(e.func.value, ast.Name) and e.func.value.id == "self" and "." in self.qualname:
+            for q in self.mod.funcs:
+                if q.endswith("." + e.func.attr):
+                    callee = q
+                    args = [{"SELF"}] + args
+                    break
+        if callee is not None:
+            self.edges.append((callee, args, kw, e.lineno))
         if "seed" in kw:
             x = kw["seed"]
             ok = x <= {"SEED", "GEN", "NONE-BY-CALLER"}
@@ -169,3 +187,47 @@ class SeedFlow:
         if ftxt in ("int", "float") and args and args[0] & {"DERIVED"}:
             return {"DERIVED"}
         return {"OTHER"}
+
+
+
+def call_site_obligations(flows):
+    """flows: {qualname: SeedFlow (already run)} of one module.  A helper that draws from a generator (or from the _R of an
+    instance) it receives as a parameter is fine iff every call site inside the module passes a seeded generator (resp. self or
+    an instance handed down the same way).  Requirements of helpers are propagated to their callers' parameters until a fixed
+    point; a function nobody in the module calls keeps the requirement as a precondition on ITS caller (the caller's generator,
+    like seed=Generator).  Returns a list of SeedSite."""
+    sites = []
+    changed = True
+    seen = set()
+    while changed:
+        changed = False
+        for q, fl in flows.items():
+            for req in sorted(fl.requires):
+                kind, pname = req.split(":", 1)
+                params = [a.arg for a in fl.fn.args.args]
+                if pname not in params:
+                    continue
+                pos = params.index(pname)
+                for cq, cf in flows.items():
+                    for (callee, args, kw, lineno) in cf.edges:
+                        if callee != q:
+                            continue
+                        v = kw.get(pname, args[pos] if pos < len(args) else None)
+                        key = (cq, q, req, lineno)
+                        if key in seen:
+                            continue
+                        seen.add(key)
+                        if v is None:
+                            sites.append(SeedSite(cf.fname, lineno, "call of %s does not pass %s" % (q, pname), False))
+                            continue
+                        good = {"GEN"} if kind == "PARAM" else {"SELF"}
+                        handed = {x for x in v if x.startswith("PARAM:")}
+                        ok = bool(v) and (v - handed) <= good
+                        for h in handed:       # the caller was itself handed the object: its callers must satisfy the same requirement
+                            new = ("PARAM:" if kind == "PARAM" else "PARAM_R:") + h[6:]
+                            if new not in cf.requires:
+                                cf.requires.add(new)
+                                changed = True
+                        sites.append(SeedSite(cf.fname, lineno, "call of %s passes %s for %s [abstract value %s]" % (
+                            q, "a seeded generator" if kind == "PARAM" else "an instance whose generator is seeded (self)", pname, sorted(v)), ok))
+    return sites
